@@ -161,6 +161,21 @@ def assemble(tab, items):
     return bytes(out), starts, {"args": args, "pre": pre}
 
 
+def jump_patterns(tab):
+    """Small fixed item lists every version is given besides the drawn ones: a jump back to offset 0, forward to
+    len(co_code), onto the next instruction, each also with a forced (zero) EXTENDED_ARG prefix."""
+    fwd = "JUMP_FORWARD"
+    back = "JUMP_ABSOLUTE" if "JUMP_ABSOLUTE" in tab.opmap else "JUMP_BACKWARD"
+    if fwd not in tab.opmap or back not in tab.opmap or "NOP" not in tab.opmap:
+        return []
+    nop = {"op": "NOP", "arg": None, "pre": 0, "to": None}
+    out = []
+    for pre in (0, 1):
+        out.append([dict(nop), {"op": back, "arg": 0, "pre": pre, "to": 0}, {"op": fwd, "arg": 0, "pre": pre, "to": -1},
+                    {"op": fwd, "arg": 0, "pre": pre, "to": 4}, dict(nop), {"op": back, "arg": 0, "pre": 0, "to": 4}])
+    return out
+
+
 def none_linetable(ncodeunits):
     """3.11+ location table saying 'no location' for every code unit"""
     out = bytearray()
@@ -200,7 +215,7 @@ def code_fields(tab, co_code, hx):
     return f
 
 
-def asm_cases(version, tab, max_items=14):
+def asm_cases(version, tab, max_items=14, padding=True):
     """Hypothesis strategy of item lists for one version"""
     v = tab.v
     by_kind = {}
@@ -223,7 +238,7 @@ def asm_cases(version, tab, max_items=14):
         it["pre"] = min(it["pre"], maxpre)
         if k == "jump":
             # -1: the offset just past the last instruction (len(co_code)), a legal jump target
-            it["to"] = draw(st.one_of(st.just(0), st.just(-1), st.integers(0, max_items), st.integers(0, max_items)))
+            it["to"] = draw(st.sampled_from([0, -1] + list(range(0, max_items + 1)) * 2))
             it["arg"] = 0
         elif k == "table":
             it["arg"] = draw(st.integers(0, tab.table_limit(name)))
@@ -234,7 +249,7 @@ def asm_cases(version, tab, max_items=14):
             it["arg"] = draw(st.one_of(st.sampled_from([lo, hi]), st.integers(lo, hi)))
         return it
     base = st.lists(item(), min_size=1, max_size=max_items)
-    if "NOP" not in tab.opmap:
+    if "NOP" not in tab.opmap or not padding:
         return base
     # one case in ten carries a long run of NOPs, so that jumps across it need operands >= 2^16 (real EXTENDED_ARG
     # high bits in jump arithmetic); the run is long enough for each encoding of the operand
@@ -244,7 +259,7 @@ def asm_cases(version, tab, max_items=14):
     @st.composite
     def padded(draw):
         items = draw(base)
-        if draw(st.integers(0, 9)) == 0:
+        if draw(st.sampled_from([False] * 9 + [True])):
             at = draw(st.integers(0, len(items)))
             items = items[:at] + [dict(run)] + items[at:]
         return items
